@@ -667,7 +667,14 @@ pub fn gen_duel(r: &mut Rng) -> String {
 
 pub fn generate_daemon(r: &mut Rng, tier: &str, emit: &mut dyn FnMut(String)) {
     let n = if tier == "thorough" { 3000 } else { 300 };
-    for _ in 0..n {
-        emit(gen_duel(r));
+    for k in 0..n {
+        if k % 4 == 3 {
+            // one daemon against an injected claimant: a conflicting response while probing
+            // (instance or host; the claimant's address inside or outside our subnets), then
+            // questions on the old and the new names
+            emit(crate::c07::gen_renamed_asked(r, "C08"));
+        } else {
+            emit(gen_duel(r));
+        }
     }
 }
